@@ -1,14 +1,13 @@
 SPECIFICATION SpecT
 CONSTANTS
-  Cfg <- CfgB
+  Cfg <- CfgA
   NumTokens = 2
   defaultInitValue = 0
-  Hist <- HistB
-  MaxTick = 3
+  Hist <- HistA
+  MaxTick = 2
 CONSTRAINT Bound
 INVARIANT NoRaise
 INVARIANT ExactlyOnce
 INVARIANT EpisodeIsolation
 INVARIANT MessagesOrdered
-INVARIANT RecordsScheduleIndependent
 ACTION_CONSTRAINT SegmentAtomic
